@@ -932,3 +932,339 @@ CLAIMS += [
           "print once and return Err exactly when printing failed; to_vec* / to_string* are those functions on a fresh vector",
           "all paths of the 6 entry points; printing fails or succeeds arbitrarily", configs=("fast",), also=("C17",)),
 ]
+
+
+# ----------------------------------------------------------------------------- string contents: fragments and escapes
+
+def claim_string_fragments(cx, res, kf):
+    """format_escaped_str_contents: by induction over the bytes of the string, the emitted sequence is the string with every
+    byte of the escape set replaced by its escape and everything else copied in order, nothing lost or duplicated.
+    State at the loop header: `start`, position k of the byte iterator.  Invariant: start <= k <= len and no byte in
+    [start, k) is in the escape set (those bytes are pending, not yet written)."""
+    from . import confirm as CF
+    onm = CF.confirm(("print",), res)
+    fn = cx.fns.get("format_escaped_str_contents") or cx.fns.get("print::format_escaped_str_contents")
+    if fn is None:
+        res.error = "format_escaped_str_contents not found"
+        return
+    raw = cx.statics.get("ESCAPE", {}).get("bytes")
+    if raw is None or len(raw) != 256:
+        res.error = "ESCAPE table not found"
+        return
+    eng = C.make_engine(cx, [], loop_mode="cut", timeout_s=120, max_paths=5000)
+
+    class _Tbl:
+        pass
+    tbl = _Tbl()
+    arr = z3.Array("strbytes", z3.BitVecSort(64), z3.BitVecSort(8))
+    ln = z3.BitVec("strlen", 64)
+    B64 = lambda v: z3.BitVecVal(v, 64)  # noqa
+
+    def unref(st, v):
+        while isinstance(v, Ref):
+            v = eng.load(st, v.addr)
+        return v
+
+    def h_ident(engine, st, fr, callee, argv, m):
+        return argv[0]
+
+    def h_iter(engine, st, fr, callee, argv, m):
+        return Opaque("ByteIter", "iter", {})
+
+    def h_next(engine, st, fr, callee, argv, m):
+        k = st.notes["k"]
+        more = z3.ULT(k, ln)
+        st.events.append(("next", k))
+        st.notes["k"] = z3.If(more, k + 1, k)
+        item = Agg("tuple", None, [Int(k, "usize"), Ref(("V", Int(z3.Select(arr, k), "u8")))])
+        return S.mk_option(more, item)
+
+    def h_index(engine, st, fr, callee, argv, m):
+        r = unref(st, argv[1])
+        lo = r.fields[0].e
+        hi = r.fields[1].e if m.group(1) == "Range" else ln
+        ok = z3.And(z3.ULE(lo, hi), z3.ULE(hi, ln))
+        frag = Ref(("V", Opaque("fragment", "frag", {"lo": lo, "hi": hi})))
+        return ("fork", [(ok, frag, None), (z3.Not(ok), ("panic", "str index out of range"), None)])
+    stubs = [
+        (re.compile(r"^core::str::<impl str>::as_bytes$"), h_ident),
+        (re.compile(r"^core::slice::<impl \[u8\]>::iter$"), h_iter),
+        (re.compile(r"^<std::slice::Iter<'_, u8> as Iterator>::enumerate$"), h_ident),
+        (re.compile(r"^<Enumerate<std::slice::Iter<'_, u8>> as IntoIterator>::into_iter$"), h_ident),
+        (re.compile(r"^<Enumerate<std::slice::Iter<'_, u8>> as Iterator>::next$"), h_next),
+        (re.compile(r"^<str as std::ops::Index<std::ops::(Range|RangeFrom)<usize>>>::index$"), h_index),
+    ]
+    eng.stubs = stubs + print_stubs(cx, eng) + S.COMBINATOR_STUBS + S.CORE_STUBS
+    start_l = fn.local_by_debug("start")
+    info = {}
+    jw = z3.BitVec("pending_position", 64)
+
+    def esc_of(b):
+        return S.table_u8_select(eng, "ESCAPE", z3.ZeroExt(56, b))
+
+    def inv(s_, k):
+        return z3.And(z3.ULE(s_, k), z3.ULE(k, ln), z3.Implies(z3.And(z3.ULE(s_, jw), z3.ULT(jw, k)), esc_of(z3.Select(arr, jw)) == 0))
+
+    def init(e, st, fr):
+        st.heap["fmt"] = Opaque("F", "formatter")
+        st.heap["writer"] = Opaque("W", "writer")
+        fr.locals[fn.args[0]] = Ref(("H", "writer"))
+        fr.locals[fn.args[1]] = Ref(("H", "fmt"))
+        fr.locals[fn.args[2]] = Ref(("V", Opaque("inputslice", "value", {"arr": arr, "len": ln})))
+        st.notes["k"] = B64(0)
+        st.notes["in"] = ()
+        return [z3.ULT(ln, B64(1 << 40))]
+
+    def on_header(e, st, fr, bb, what):
+        st.notes["k_arrive"] = st.notes["k"]
+        st.notes["k"] = z3.BitVec("k_h%d" % len(st.notes["in"]), 64)
+
+    def havoc(e, st, fr, bb):
+        k, s_ = st.notes["k"], fr.locals[start_l].e
+        st.notes["in"] = st.notes["in"] + ((bb, {"k": k, "start": s_, "nev": len(st.events)}),)
+        # invariant (obligation at the base and at every back edge); the universally quantified part is used and proved
+        # for one arbitrary, fixed position jw (skolem constant): a pending position after the step is either pending
+        # before it or the current byte
+        return [inv(s_, k)]
+    eng.on_header, eng.havoc_hook = on_header, havoc
+    terms = eng.explore(fn.name, init)
+    res.absorb(eng)
+
+    base_done = set()
+    seen = {"skip": 0, "escape": 0, "end": 0}
+    for t in terms:
+        st = t.state
+        pc = list(st.pc)
+        if t.kind == "PANIC":
+            res.must_be_unsat(pc, "string printing: reachable panic `%s` (fragment range out of bounds / table index)" % t.info.get("msg"), onm)
+            continue
+        if not st.notes["in"]:
+            continue
+        K.base_case(res, st, 0, base_done, lambda a: z3.And(a["locals"][start_l].e == 0, st.notes["k_arrive"] == 0)
+                    if start_l in a["locals"] else None, "string printing does not start at the first byte with nothing pending", onm)
+        hb, rec = st.notes["in"][-1]
+        k, s_ = rec["k"], rec["start"]
+        byte = z3.Select(arr, k)
+        esc = esc_of(byte)
+        evs = st.events[rec["nev"]:]
+        calls = [e for e in evs if e[0] == "fcall"]
+        names = [c[1] for c in calls]
+
+        def frag_of(c):
+            v = unref(st, c[2][0])
+            return (v.attrs["lo"], v.attrs["hi"]) if isinstance(v, Opaque) and v.ty == "fragment" else None
+        if t.kind == "LOOP_BACK":
+            fr = st.frames[-1]
+            s2, k2 = fr.locals[start_l].e, st.notes["k"]
+            res.must_be_unsat(pc + [z3.Not(inv(s2, k2))], "string printing: a byte of the escape set can end up inside a copied fragment, or "
+                              "the pending range runs ahead of the iterator (invariant broken)", onm)
+            res.must_be_unsat(pc + [z3.Not(z3.And(z3.ULT(k, ln), k2 == k + 1))], "string printing: the loop continues past the last byte / skips bytes", onm)
+            allok = [z3.Not(c[3]) for c in calls]
+            if not calls:
+                seen["skip"] += 1
+                res.must_be_unsat(pc + [z3.Not(z3.And(esc == 0, s2 == s_))], "string printing: a byte of the escape set is passed over without an escape", onm)
+                continue
+            seen["escape"] += 1
+            ok_shape = names in (["write_string_fragment", "write_char_escape"], ["write_char_escape"])
+            if not ok_shape:
+                res.must_be_unsat(pc, "string printing: unexpected emissions %r for one byte" % (names,), onm)
+                continue
+            res.must_be_unsat(pc + allok + [z3.Not(z3.And(esc != 0, s2 == k + 1))], "string printing: escape emitted for a plain byte / next fragment does not start after the escaped byte", onm)
+            if len(calls) == 2:
+                f = frag_of(calls[0])
+                if f is None:
+                    res.must_be_unsat(pc, "string printing: fragment argument is not a range of the string", onm)
+                else:
+                    res.must_be_unsat(pc + allok + [z3.Not(z3.And(f[0] == s_, f[1] == k, z3.ULT(s_, k)))], "string printing: the fragment before an escape is not exactly the pending bytes [start, i)", onm)
+            else:
+                res.must_be_unsat(pc + allok + [s_ != k], "string printing: pending bytes before an escape are dropped", onm)
+            ce = calls[-1][2][0]
+            ce = unref(st, ce)
+            if isinstance(ce, EnumV):
+                CE = cx.enums["CharEscape"]
+                # the escape class handed to the formatter is the one of THIS byte (from_escape_table(ESCAPE[byte], byte))
+                actl = CE.index("AsciiControl")
+                pay = ce.variants.get(actl, [None])[0]
+                if pay is not None and isinstance(pay, Int):
+                    res.must_be_unsat(pc + allok + [ce.discr == actl, pay.e != byte], "string printing: control escape carries another byte than the one being escaped", onm)
+        elif t.kind == "RETURN":
+            kind, payload = K.classify_return(eng, t)
+            if kind != "ok":
+                continue
+            seen["end"] += 1
+            allok = [z3.Not(c[3]) for c in calls]
+            res.must_be_unsat(pc + [z3.ULT(k, ln)], "string printing ends before the last byte", onm)
+            if names == ["write_string_fragment"]:
+                f = frag_of(calls[0])
+                res.must_be_unsat(pc + allok + ([z3.Not(z3.And(f[0] == s_, f[1] == ln, s_ != ln))] if f else []), "string printing: the final fragment is not the pending rest [start, len)", onm)
+            elif not names:
+                res.must_be_unsat(pc + [s_ != ln], "string printing: pending bytes at the end of the string are dropped", onm)
+            else:
+                res.must_be_unsat(pc, "string printing: unexpected final emissions %r" % (names,), onm)
+    for k_, n in seen.items():
+        res.vacuity.append(("string contents loop reaches %s" % k_, n > 0))
+
+
+CLAIMS += [
+    Claim("c01_string_fragments", "C01", "quick", claim_string_fragments,
+          "string contents: by induction over the bytes, every byte of the escape set (compiled ESCAPE table) is replaced by the "
+          "escape of exactly that byte and every other byte is copied in order in fragments [start, i) / [start, len); nothing "
+          "is lost, duplicated or copied although it needs an escape; fragment ranges stay in bounds",
+          "strings of any length (loop cut with invariant `no escape-set byte pending`, base case and preservation decided)",
+          configs=("fast",), also=("C02", "C07", "C13", "C17")),
+]
+
+
+# ----------------------------------------------------------------------------- Emacs byte strings: one `\ooo` per octet
+
+def claim_elisp_bytes(cx, res, kf):
+    """CustomizedFormatter::write_bytes, Emacs syntax: `"`, then for every octet a backslash and exactly three octal digits
+    (value = the octet), then `"`.  Outer loop cut (any length), the 3-digit loop executed."""
+    from . import confirm as CF
+    onm = CF.confirm(("print",), res)
+    fn = None
+    for name, f in cx.fns.items():
+        if name.endswith("::write_bytes") and "{closure" not in name and "CustomizedFormatter" in f.local_ty.get(f.args[0], ""):
+            fn = f
+    if fn is None:
+        res.error = "CustomizedFormatter::write_bytes not found"
+        return
+    eng = C.make_engine(cx, [], loop_mode="cut", timeout_s=120, max_paths=5000, unroll=5)
+    order = []
+
+    def mode(f, bb):
+        if bb not in order:
+            order.append(bb)
+        return "cut" if order.index(bb) == 0 else "unroll"
+    eng.loop_mode = mode
+
+    def unref(st, v):
+        while isinstance(v, Ref):
+            v = eng.load(st, v.addr)
+        return v
+
+    def h_into_iter(engine, st, fr, callee, argv, m):
+        if m.group(1) == "u8]":
+            return Opaque("Iter", "octets", {})
+        arr = unref(st, argv[0])
+        return Opaque("Iter", "digits", {"arr": arr, "pos": 0})
+
+    def h_next(engine, st, fr, callee, argv, m):
+        it = unref(st, argv[0])
+        if it.label == "octets":
+            n = st.notes.get("noct", 0) + 1
+            st.notes["noct"] = n
+            more = z3.Bool("octet_%d_more" % n)
+            o = z3.BitVec("octet_%d" % n, 8)
+            st.events.append(("octet", more, o))
+            return S.mk_option(more, Ref(("V", Int(o, "u8"))))
+        arr, pos = it.attrs["arr"], it.attrs["pos"]
+        if not isinstance(arr, Agg) or pos >= len(arr.fields):
+            return EnumV("Option", 0, {})
+        engine.store(st, argv[0].addr, Opaque("Iter", "digits", {"arr": arr, "pos": pos + 1}))
+        return EnumV("Option", 1, {1: [Ref(("V", arr.fields[pos]))]})
+    stubs = [
+        (re.compile(r"^<&\[(u8\]|u8; 3\]) as IntoIterator>::into_iter$"), h_into_iter),
+        (re.compile(r"^<std::slice::Iter<'_, u8> as Iterator>::next$"), h_next),
+    ]
+    eng.stubs = stubs + print_stubs(cx, eng) + S.COMBINATOR_STUBS + S.CORE_STUBS
+    YS = cx.enums["BytesSyntax"]
+
+    def init(e, st, fr):
+        opts, cons, ov = print_options(cx, e, st)
+        st.heap["fmt"] = Agg("struct", "CustomizedFormatter", [opts])
+        st.heap["writer"] = Opaque("W", "writer")
+        fr.locals[fn.args[0]] = Ref(("H", "fmt"))
+        fr.locals[fn.args[1]] = Ref(("H", "writer"))
+        fr.locals[fn.args[2]] = Ref(("V", Opaque("bytes", "octets arg", {})))
+        st.notes["in"] = ()
+        return cons + [ov["bytes_syntax"] == YS.index("Elisp")]
+
+    def havoc(e, st, fr, bb):
+        st.notes["in"] = st.notes["in"] + ((bb, {"nev": len(st.events)}),)
+        return []
+    eng.havoc_hook = havoc
+    terms = eng.explore(fn.name, init)
+    res.absorb(eng)
+    table = None
+    for nm, sv in cx.statics.items():
+        if isinstance(sv, dict) and sv.get("bytes") == b"012345678":
+            table = nm
+
+    def emitted(st, since):
+        """list of (z3 byte term list | None, err) for the emissions since event index `since`"""
+        out = []
+        for e in st.events[since:]:
+            if e[0] == "bare_write":
+                out.append(("bare", e[2]))
+            elif e[0] == "emit":
+                d = e[1]
+                if d[0] == "lit":
+                    out.append(([bv(x) for x in d[1]], e[2]))
+                elif d[0] == "static":
+                    lo, hi = d[2], d[3]
+                    out.append(([("digit", lo, hi)], e[2]))
+                else:
+                    out.append((None, e[2]))
+        return out
+    seen = {"octet": 0, "end": 0}
+    pre_ok = False
+    for t in terms:
+        st = t.state
+        pc = list(st.pc)
+        if t.kind in ("PANIC", "UNROLL_LIMIT"):
+            res.must_be_unsat(pc, "Emacs byte string printing: reachable panic / more than three digits per octet (%s)" % t.info.get("msg", t.kind), onm)
+            continue
+        if not st.notes["in"]:
+            continue
+        hb, rec = st.notes["in"][0]
+        pre = emitted(st, 0)[:1]
+        if not (pre and pre[0][0] is not None and pre[0][0] != "bare" and len(pre[0][0]) == 1):
+            res.must_be_unsat(pc, "Emacs byte string printing does not start with the opening quote", onm)
+            continue
+        ems = emitted(st, rec["nev"])
+        octs = [e for e in st.events[rec["nev"]:] if e[0] == "octet"]
+        if not octs:
+            continue
+        more, o = octs[0][1], octs[0][2]
+        allok = [z3.Not(err) for _, err in ems]
+        if t.kind == "LOOP_BACK":
+            seen["octet"] += 1
+            shape = len(ems) == 4 and all(x[0] is not None and x[0] != "bare" and len(x[0]) == 1 for x in ems)
+            if not shape:
+                res.must_be_unsat(pc + allok, "Emacs byte string printing: an octet is not written as a backslash and three digits (%d pieces)" % len(ems), onm)
+                continue
+            bs = ems[0][0][0]
+            conds = [more, bs == bv(ord("\\"))]
+            for k_, sh in zip((1, 2, 3), (6, 3, 0)):
+                d = ems[k_][0][0]
+                if not (isinstance(d, tuple) and d[0] == "digit"):
+                    conds.append(z3.BoolVal(False))
+                    continue
+                want = z3.ZeroExt(56, z3.LShR(o, sh) & 7)
+                conds.append(z3.And(d[1] == want, d[2] == want))
+            res.must_be_unsat(pc + allok + [z3.Not(z3.And(*conds))], "Emacs byte string printing: the three digits are not the octal digits of the octet "
+                              "(64s, 8s, 1s place; taken from the digit table at that index)", onm)
+        elif t.kind == "RETURN":
+            kind, payload = K.classify_return(eng, t)
+            if kind in ("ok", "sym"):
+                seen["end"] += 1
+                extra = [payload.discr == 0] if kind == "sym" else []
+                okq = len(ems) == 1 and ems[0][0] is not None and ems[0][0] != "bare" and len(ems[0][0]) == 1
+                if not okq:
+                    res.must_be_unsat(pc + extra, "Emacs byte string printing does not end with just the closing quote", onm)
+                else:
+                    res.must_be_unsat(pc + extra + [z3.Not(z3.And(z3.Not(more), ems[0][0][0] == bv(ord('"'))))], "Emacs byte string printing: closing quote wrong / octets remain", onm)
+    if table is None or cx.statics[table]["bytes"][:8] != b"01234567":
+        res.violations.append({"what": "octal digit table not found / does not start with 01234567", "replayed": None})
+    for k_, n in seen.items():
+        res.vacuity.append(("Emacs byte string printing reaches %s" % k_, n > 0))
+
+
+CLAIMS += [
+    Claim("c02_elisp_bytes", "C02", "quick", claim_elisp_bytes,
+          "byte vectors under the Emacs bytes syntax: opening quote, then for EVERY octet a backslash and exactly its three octal "
+          "digits taken from the compiled digit table, then the closing quote (so the text re-reads as a unibyte string of the "
+          "same octets whatever their values)",
+          "any number of octets (loop cut), every octet value", configs=("fast",), also=("C07", "C13", "C17")),
+]
